@@ -1,28 +1,59 @@
 #!/venv/bin/python
-"""Evaluate every seeded change under /verif/seeded against all quick checks (applies each patch to /repo, runs
-./check C01..C20, undoes it) and records the outcome in its meta.json under 'current_evaluation'."""
+"""Evaluate every seeded change under /verif/seeded against all quick checks on an IN-MEMORY variant of the current
+/repo tree (nothing is written to /repo) and record the outcome in its meta.json under 'current_evaluation'."""
+import concurrent.futures as cf
 import glob
 import json
 import os
-import subprocess
 import sys
 
 VERIF = os.path.dirname(os.path.dirname(os.path.abspath(__file__)))
-rows = []
-for d in sorted(glob.glob(os.path.join(VERIF, 'seeded', 'C*'))):
-    patch = os.path.join(d, 'patch.diff')
-    r = subprocess.run([os.path.join(VERIF, 'tools', 'seed_eval.py'), patch], capture_output=True, text=True)
-    res = json.load(open('/tmp/seed_eval_last.json'))
-    det = sorted(p for p, rc in res.items() if rc == 1)
-    err = sorted(p for p, rc in res.items() if rc == 2)
-    meta = json.load(open(os.path.join(d, 'meta.json')))
-    rules = sorted({l.split(' C')[-1].split(' ')[0] for l in r.stdout.split('\n') if l.startswith('      emd/')})
-    rules = sorted({w for l in r.stdout.split('\n') if l.startswith('      emd/') for w in l.split() if w[:1] == 'C' and '.R' in w} |
-                   {'L1' for l in r.stdout.split('\n') if ' L1 ' in l})
-    meta['current_evaluation'] = {'detected_by': det, 'analysis_error': err, 'rules': rules}
-    json.dump(meta, open(os.path.join(d, 'meta.json'), 'w'), indent=1)
-    own = meta['property'] in det
-    rows.append((os.path.basename(d), own, det, err, rules))
-    print('%-6s own=%-5s detected_by=%-20s err=%-8s %s' % (os.path.basename(d), own, ' '.join(det), ' '.join(err), ' '.join(rules)))
-print('seeds=%d detected=%d detected_by_own_property=%d analysis_error=%d' % (
-    len(rows), sum(1 for r in rows if r[2]), sum(1 for r in rows if r[1]), sum(1 for r in rows if r[3] and not r[2])))
+sys.path.insert(0, VERIF)
+sys.dont_write_bytecode = True
+from emdverif import selfval  # noqa: E402
+
+PROPS = ['C%02d' % i for i in range(1, 21)]
+
+
+def one(args):
+    d, prop = args
+    ov = selfval.patch_overrides(os.path.join(d, 'patch.diff'))
+    if not ov:
+        return d, prop, 3, 'patch does not apply'
+    rc, out = selfval._run_variant(prop, ov)
+    return d, prop, rc, out
+
+
+def main():
+    dirs = sorted(glob.glob(os.path.join(VERIF, 'seeded', 'C*')))
+    only = sys.argv[1:]
+    if only:
+        dirs = [d for d in dirs if os.path.basename(d) in only]
+    jobs = [(d, p) for d in dirs for p in PROPS]
+    res = {}
+    with cf.ProcessPoolExecutor(max_workers=16) as ex:
+        for d, p, rc, out in ex.map(one, jobs, chunksize=4):
+            res.setdefault(d, {})[p] = (rc, out)
+    rows = []
+    for d in dirs:
+        r = res[d]
+        det = sorted(p for p, (rc, o) in r.items() if rc == 1)
+        err = sorted(p for p, (rc, o) in r.items() if rc not in (0, 1))
+        rules = sorted({w for p, (rc, o) in r.items() for l in o.split('\n') if l.startswith('  emd/')
+                        for w in l.split() if w[:1] == 'C' and '.R' in w} |
+                       {'L1' for p, (rc, o) in r.items() for l in o.split('\n') if ' L1 ' in l})
+        meta = json.load(open(os.path.join(d, 'meta.json')))
+        meta['current_evaluation'] = {'detected_by': det, 'analysis_error': err, 'rules': rules}
+        json.dump(meta, open(os.path.join(d, 'meta.json'), 'w'), indent=1)
+        own = meta['property'] in det
+        rows.append((os.path.basename(d), own, det, err, rules))
+        print('%-6s own=%-5s detected_by=%-20s err=%-8s %s' % (os.path.basename(d), own, ' '.join(det), ' '.join(err),
+                                                               ' '.join(rules)))
+    print('seeds=%d detected=%d detected_by_own_property=%d analysis_error_only=%d' % (
+        len(rows), sum(1 for r in rows if r[2]), sum(1 for r in rows if r[1]),
+        sum(1 for r in rows if r[3] and not r[2])))
+    return 0 if all(r[1] for r in rows) else 1
+
+
+if __name__ == '__main__':
+    sys.exit(main())
